@@ -52,6 +52,14 @@ def generate(rng, tier, index):
             for op in ops:
                 if op['fn'] in ('write_register', 'write_registers') and rng.random() < 0.6:
                     op['unit'] = 0
+    if kind != 'udp' and rng.random() < 0.3:     # (UDP retries never deliver: known finding KF-C13-UDP-RETRY)
+        # a lost reply and a retry (with its back-off sleep) are part of a transaction: nobody else may
+        # get in between.  Only 'nothing' is used (no reply at all), so no stray bytes are left on the link.
+        kw.update({'retry_on_empty': True, 'retries': rng.choice([1, 2]), 'backoff': rng.choice([0.02, 0.05]), 'timeout': 0.05})
+        for ops in callers:
+            for op in ops:
+                if rng.random() < 0.4:
+                    op['script'] = [{'act': 'nothing'}] + op['script']
     sched = {'tail_seed': rng.randrange(1 << 30)}
     if tier == 'thorough' and rng.random() < 0.4:
         # PCT-style: 1-3 forced switches at line events inside the client code
@@ -147,6 +155,7 @@ def execute(scn):
     out['probes']['callers_overlapped'] = 1 if overl else 0
     out['probes']['connections_opened'] = res.connects
     out['probes']['line_preemptions'] = res.counters.get('line_preempt', 0)
+    out['probes']['retried_transactions'] = sum(1 for ops in scn['callers'] for op in ops if any(a['act'] == 'nothing' for a in op.get('script') or []))
     out['probes']['broadcast_ops'] = sum(1 for ops in scn['callers'] for op in ops if op.get('unit') == 0)
     out['cell'] = '%s/%s/%s' % (kind, len(scn['callers']), 'line' if (scn.get('sched') or {}).get('preempt_lines') else 'transport')
     return out
